@@ -150,7 +150,14 @@ def run_case(case):
                 if w[0] != g[0]:
                     viol("tree_differs", "kind", "%r: source is a %s, extracted a %s" % (rel, w[0], g[0]))
                     break
-                if w[1] != g[1]:
+                same = w[1] == g[1]
+                if not same and w[0] == "link":
+                    # link texts are compared as paths: './x', 'x/.' and 'x//y' name what 'x' and 'x/y' name on every system
+                    # (py7zr stores the pathlib form); '..' components are NOT folded, that can change the referent
+                    import pathlib
+
+                    same = pathlib.PurePosixPath(w[1]) == pathlib.PurePosixPath(g[1])
+                if not same:
                     viol("tree_differs", "content" if w[0] == "file" else "link_target", "%r: %s differs (%r vs %r)" % (rel, "bytes" if w[0] == "file" else "link target",
                                                                                                               len(w[1]) if w[0] == "file" else w[1], len(g[1]) if g[0] == "file" else g[1]))
                     break
